@@ -1104,7 +1104,7 @@ impl InstrFormat for OldeEclHooks {
     fn read_instr(&self, f: &mut BinReader, emitter: &dyn Emitter) -> ReadResult<ReadInstr> {
         let time = f.read_i32()?;
         let opcode = f.read_u16()?;
-        let size = f.read_i16()? as usize;
+        let size = f.read_u16()? as usize;  // (written as i16; a negative size is as bad as a small one)
         let before_difficulty = f.read_u8()?;  // according to zero, not referenced in any game
         let difficulty = f.read_u8()?;
         let param_mask = f.read_u16()?;
@@ -1120,7 +1120,10 @@ impl InstrFormat for OldeEclHooks {
             )).ignore();
         }
 
-        let args_blob = f.read_byte_vec(size - self.instr_header_size())?;
+        let args_size = size.checked_sub(self.instr_header_size()).ok_or_else(|| {
+            emitter.as_sized().emit(error!("bad instruction size ({} < {})", size, self.instr_header_size()))
+        })?;
+        let args_blob = f.read_byte_vec(args_size)?;
 
         let instr = RawInstr {
             time, opcode, args_blob,
